@@ -1,6 +1,13 @@
 import Driver.Common
 import Driver.RnsCodec
+import Canine.Genesis.Modules
 open Lean (Json FromJson ToJson fromJson? toJson)
+namespace Canine.Genesis.Rns
+deriving instance FromJson, ToJson for Whois
+deriving instance FromJson, ToJson for InitRec
+deriving instance FromJson, ToJson for PrimaryName
+deriving instance FromJson, ToJson for GenesisState
+end Canine.Genesis.Rns
 namespace Driver.Rns
 open Canine Canine.Rns Driver
 
@@ -23,7 +30,22 @@ def check (j : Json) : Except String (Option String) := do
   let pre : State ← getField j "pre" >>= fromJson?
   let post : State ← getField j "post" >>= fromJson?
   -- a restart of the network from its own exported genesis changes nothing the module holds
-  if let .ok (.str "restart") := getField j "op" then return diff pre post
+  if let .ok (.str "restart") := getField j "op" then
+    -- the concrete genesis model against the real export (each list, in order), and the import of the real genesis
+    let gd : Option String ←
+      match j.getObjVal? "genesis" with
+      | .ok gj =>
+        if gj.isNull then pure none else do
+        let g : Genesis.Rns.GenesisState ← fromJson? gj
+        let m := Genesis.Rns.exportGenesis pre
+        let imported := Genesis.Rns.initGenesis (Genesis.Rns.blank pre) g
+        pure (allSome [cmpField "genesis.whoIsList" m.whoIsList g.whoIsList, cmpField "genesis.namesList" m.namesList g.namesList,
+          cmpField "genesis.bidsList" m.bidsList g.bidsList, cmpField "genesis.forSaleList" m.forSaleList g.forSaleList,
+          cmpField "genesis.initList" m.initList g.initList, cmpField "genesis.primaryNameList" m.primaryNameList g.primaryNameList,
+          cmpField "genesis.validate" (Genesis.Rns.validate g) true,
+          (diff imported post).map (fun d => "genesis.import " ++ d)])
+      | .error _ => pure none
+    return allSome [diff pre post, gd]
   let op : Op ← getField j "op" >>= fromJson?
   let h : Int ← getField j "h" >>= fromJson?
   let ok : Bool ← getField j "ok" >>= fromJson?
